@@ -247,6 +247,12 @@ func Eq(a, b *Term) *Term {
 	if a == b {
 		return True
 	}
+	if a.Op == b.Op && a.Op != OpConst {
+		budget := 20000
+		if structEq(a, b, map[[2]int64]bool{}, &budget) {
+			return True
+		}
+	}
 	if a.W == 0 {
 		if a.Op == OpConst {
 			if a.C == 1 {
@@ -266,7 +272,7 @@ func Eq(a, b *Term) *Term {
 		a, b = b, a
 	}
 	if a.Op == OpConst && b.Op == OpIte {
-		if cs := constSet(b, 32); cs != nil {
+		if cs := constSet(b, 80); cs != nil {
 			found := false
 			for _, v := range cs {
 				if v == a.C {
@@ -280,6 +286,23 @@ func Eq(a, b *Term) *Term {
 		// push the comparison into the branches when they are constants
 		if b.A[1].Op == OpConst || b.A[2].Op == OpConst {
 			return Ite(b.A[0], Eq(a, b.A[1]), Eq(a, b.A[2]))
+		}
+	}
+	// two look-ups in the same injective constant table (hex digits, base64 alphabet): compare the indices
+	if a.Op == OpIte && b.Op == OpIte {
+		if ia, ka, va, ok := tableOf(a); ok {
+			if ib, kb, vb, ok2 := tableOf(b); ok2 && len(ka) == len(kb) && ia.W == ib.W {
+				same := true
+				for i := range ka {
+					if ka[i] != kb[i] || va[i] != vb[i] {
+						same = false
+						break
+					}
+				}
+				if same && distinctVals(va) && umax(ia, 0) < uint64(len(ka)) && umax(ib, 0) < uint64(len(kb)) {
+					return Eq(ia, ib)
+				}
+			}
 		}
 	}
 	// zero-extended value vs constant that does not fit
@@ -297,6 +320,177 @@ func Eq(a, b *Term) *Term {
 }
 
 func Ne(a, b *Term) *Term { return Not(Eq(a, b)) }
+
+// tableOf recognises ite(idx==0,c0, ite(idx==1,c1, … c_last)) – a constant table indexed by idx (keys 0..n-1 in order).
+func tableOf(t *Term) (idx *Term, keys, vals []uint64, ok bool) {
+	for t.Op == OpIte {
+		c := t.A[0]
+		if c.Op != OpEq {
+			return nil, nil, nil, false
+		}
+		x, k := c.A[0], c.A[1]
+		if x.Op == OpConst {
+			x, k = k, x
+		}
+		if k.Op != OpConst || t.A[1].Op != OpConst {
+			return nil, nil, nil, false
+		}
+		if idx == nil {
+			idx = x
+		} else if idx != x {
+			return nil, nil, nil, false
+		}
+		if k.C != uint64(len(keys)) {
+			return nil, nil, nil, false
+		}
+		keys = append(keys, k.C)
+		vals = append(vals, t.A[1].C)
+		t = t.A[2]
+		if len(keys) > 300 {
+			return nil, nil, nil, false
+		}
+	}
+	if t.Op != OpConst || idx == nil {
+		return nil, nil, nil, false
+	}
+	keys = append(keys, uint64(len(keys)))
+	vals = append(vals, t.C)
+	return idx, keys, vals, true
+}
+
+func distinctVals(v []uint64) bool {
+	seen := map[uint64]bool{}
+	for _, x := range v {
+		if seen[x] {
+			return false
+		}
+		seen[x] = true
+	}
+	return true
+}
+
+// structEq: are two term DAGs syntactically identical (same variables by name)? Bounded; false when unsure.
+func structEq(a, b *Term, memo map[[2]int64]bool, budget *int) bool {
+	if a == b {
+		return true
+	}
+	if a.Op != b.Op || a.W != b.W || len(a.A) != len(b.A) {
+		return false
+	}
+	switch a.Op {
+	case OpConst:
+		return a.C == b.C
+	case OpVar:
+		return a.Name == b.Name
+	}
+	if a.C != b.C {
+		return false
+	}
+	k := [2]int64{a.ID, b.ID}
+	if v, ok := memo[k]; ok {
+		return v
+	}
+	*budget--
+	if *budget <= 0 {
+		return false
+	}
+	r := true
+	for i := range a.A {
+		if !structEq(a.A[i], b.A[i], memo, budget) {
+			r = false
+			break
+		}
+	}
+	memo[k] = r
+	return r
+}
+
+// UMax is a cheap upper bound of the unsigned value of t.
+func UMax(t *Term) uint64 {
+	return umax(t, 0)
+}
+
+func umax(t *Term, depth int) uint64 {
+	full := mask(t.W)
+	if t.W == 0 {
+		return 1
+	}
+	if depth > 12 {
+		return full
+	}
+	switch t.Op {
+	case OpConst:
+		return t.C
+	case OpZeroExt:
+		return umax(t.A[0], depth+1)
+	case OpBAnd:
+		x, y := umax(t.A[0], depth+1), umax(t.A[1], depth+1)
+		if x < y {
+			return x
+		}
+		return y
+	case OpBOr, OpBXor:
+		x, y := umax(t.A[0], depth+1), umax(t.A[1], depth+1)
+		m := x | y
+		// round up to all-ones below the top bit
+		for i := uint(1); i < 64; i <<= 1 {
+			m |= m >> i
+		}
+		return m & full
+	case OpLShr:
+		if t.A[1].Op == OpConst {
+			if t.A[1].C >= uint64(t.W) {
+				return 0
+			}
+			return umax(t.A[0], depth+1) >> t.A[1].C
+		}
+		return umax(t.A[0], depth+1)
+	case OpURem:
+		if t.A[1].Op == OpConst && t.A[1].C > 0 {
+			return t.A[1].C - 1
+		}
+	case OpUDiv:
+		if t.A[1].Op == OpConst && t.A[1].C > 0 {
+			return umax(t.A[0], depth+1) / t.A[1].C
+		}
+	case OpIte:
+		x, y := umax(t.A[1], depth+1), umax(t.A[2], depth+1)
+		if x > y {
+			return x
+		}
+		return y
+	case OpExtract:
+		hi, lo := uint8(t.C>>8), uint8(t.C&0xff)
+		m := umax(t.A[0], depth+1) >> lo
+		if fm := mask(hi - lo + 1); m > fm {
+			return fm
+		}
+		return m
+	case OpAdd:
+		x, y := umax(t.A[0], depth+1), umax(t.A[1], depth+1)
+		if x+y >= x && x+y <= full {
+			return x + y
+		}
+	case OpShl:
+		if t.A[1].Op == OpConst && t.A[1].C < 64 {
+			x := umax(t.A[0], depth+1)
+			if x<<t.A[1].C>>t.A[1].C == x && x<<t.A[1].C <= full {
+				return x << t.A[1].C
+			}
+		}
+	case OpMul:
+		if t.A[1].Op == OpConst || t.A[0].Op == OpConst {
+			x, y := umax(t.A[0], depth+1), umax(t.A[1], depth+1)
+			if x == 0 || y == 0 {
+				return 0
+			}
+			if p := x * y; p/y == x && p <= full {
+				return p
+			}
+		}
+	}
+	return full
+}
 
 func bin(op Op, a, b *Term) *Term {
 	if a.W != b.W {
@@ -433,6 +627,12 @@ func bin(op Op, a, b *Term) *Term {
 		if b.Op == OpConst && b.C == 0 {
 			return False
 		}
+		if b.Op == OpConst && a.Op != OpConst && umax(a, 0) < b.C {
+			return True
+		}
+		if a.Op == OpConst && b.Op != OpConst && umax(b, 0) <= a.C {
+			return False
+		}
 	case OpULe:
 		if a == b {
 			return True
@@ -440,14 +640,29 @@ func bin(op Op, a, b *Term) *Term {
 		if a.Op == OpConst && a.C == 0 {
 			return True
 		}
-	case OpSLt:
-		if a == b {
-			return False
-		}
-	case OpSLe:
-		if a == b {
+		if b.Op == OpConst && a.Op != OpConst && umax(a, 0) <= b.C {
 			return True
 		}
+		if a.Op == OpConst && b.Op != OpConst && umax(b, 0) < a.C {
+			return False
+		}
+	case OpSLt, OpSLe:
+		// both sides provably non-negative: same as unsigned
+		if w > 1 {
+			top := uint64(1) << (w - 1)
+			if umax(a, 0) < top && umax(b, 0) < top {
+				if op == OpSLt {
+					return bin(OpULt, a, b)
+				}
+				return bin(OpULe, a, b)
+			}
+		}
+	}
+	if op == OpSLt && a == b {
+		return False
+	}
+	if op == OpSLe && a == b {
+		return True
 	}
 	// comparisons of zero-extended narrow values with constants (bytes widened to int)
 	switch op {
